@@ -5,6 +5,24 @@
   Model: EmdModel/Logger.lean.  `step` is one operation of a logger history
   (`set_up`, `set_level`, `disable`, `enable`, a `@wrap_verbose`-decorated call with `verbose=v`
   whose body returns or raises); `traj`/`observe`/`run` lift it to whole histories.
+
+  WHAT IS PROVED AND WHAT IS NOT (review B, items 2-3).
+  * The body of the decorated function enters the model only through its outcome (`returns | raises`),
+    which is an INPUT.  `result_indep_of_log` / `run_results_indep` are therefore definitional as far as
+    the body is concerned; their content is `call_transparent`: the WRAPPER adds nothing and removes
+    nothing — the caller gets the body's value or the body's own exception, in every state and for
+    every documented verbosity; the wrapper never substitutes an error of its own and never swallows one.
+  * That the body's numerical result is bitwise independent of the logger state is an INSTANCE check
+    (c20.py: digest of every returned array against a reference computed under an untouched logger,
+    over exhaustive histories to depth 3/4 and random ones beyond); it is not a theorem.
+  * `sift_logger` reads its inputs: it formats `args[0].shape` eagerly, whatever the level, so
+    `sift(X=x)` (signal by keyword) raises IndexError — in EVERY logger state.  State-independent, hence
+    not a C20 violation; the harness asserts the state-independence of that outcome (call mode `k`).
+  * Verbosity values outside the documented set {None, CRITICAL, WARNING, INFO, DEBUG} (the property's
+    quantifier) are modelled as `callBad`: ignored before set_up, rejected by the wrapper after.  There the
+    RESULT does depend on the logger state (`bad_verbose_depends_on_setup`) — outside the property —
+    while the LEVEL guarantee still holds (`bad_verbose_level_untouched`, and `run_restores` /
+    `run_calls_irrelevant` quantify over these calls too).
 -/
 import Proofs.Lemmas.Logger
 
@@ -83,9 +101,11 @@ theorem run_calls_irrelevant (s : LogState) (ops : List Op) :
       simp only [run, List.foldl_cons, List.filter_cons, hc, Bool.not_false, ite_true]
       exact ih _
 
-/-- Over every history and from every start state, what the calls give back is determined by the
-    calls alone: logger operations in between (and the start state) have no influence. -/
-theorem run_results_indep (s : LogState) (ops : List Op) :
+/-- Over every history of documented operations and from every start state, what the calls give back
+    is determined by the calls alone: logger operations in between (and the start state) have no
+    influence.  (`hdoc` excludes only calls with an undocumented verbosity value, for which the
+    statement is false: `bad_verbose_depends_on_setup`.) -/
+theorem run_results_indep (s : LogState) (ops : List Op) (hdoc : ∀ op ∈ ops, op.documented = true) :
     (observe s ops).map (·.map (·.result)) =
       ops.map (fun op => match op with
         | .call _ o => some (ownResult o)
@@ -93,11 +113,60 @@ theorem run_results_indep (s : LogState) (ops : List Op) :
   induction ops generalizing s with
   | nil => rfl
   | cons op ops ih =>
-    simp only [observe, List.map_cons, ih]
+    simp only [observe, List.map_cons, ih _ (fun op' h => hdoc op' (List.mem_cons_of_mem _ h))]
     congr 1
+    have hd := hdoc op (by simp)
     cases op with
     | call v o => exact call_transparent s v o
+    | callBad o => simp [Op.documented] at hd
     | _ => rfl
+
+/-! ### A verbosity outside the documented values (`verbose='debug'`, `verbose=10`, …) -/
+
+/-- The LEVEL guarantee does not need a valid verbosity: whatever was requested, in every state and
+    for both outcomes, the logger state after the call is the state before it. -/
+theorem bad_verbose_level_untouched (s : LogState) (o : Outcome) :
+    (step s (.callBad o)).1 = s := step_callBad_state s o
+
+/-- Before `set_up` an undocumented verbosity is silently ignored (no console handler: `set_level`
+    never evaluates it): the caller gets the body's own outcome — "harmless before set-up". -/
+theorem bad_verbose_before_setup_ignored (s : LogState) (h : s.console = none) (o : Outcome) :
+    (step s (.callBad o)).2.map (·.result) = some (ownResult o) := by
+  show some (wrapVerboseBad s o).2.result = _
+  simp [wrapVerboseBad, h]
+
+/-- Once a console handler exists the wrapper rejects it before the body runs (an error of the
+    wrapper, not of the call), leaving the level as it was. -/
+theorem bad_verbose_after_setup_rejected (s : LogState) (c : Level) (h : s.console = some c) (o : Outcome) :
+    (step s (.callBad o)).2.map (·.result) = some .raisedWrapper ∧ (step s (.callBad o)).1.console = some c := by
+  refine ⟨?_, by rw [step_callBad_state]; exact h⟩
+  show some (wrapVerboseBad s o).2.result = _
+  simp [wrapVerboseBad, h]
+
+/-- So for an UNDOCUMENTED verbosity the result does depend on the logger state (same call, same
+    returning body: value before `set_up`, wrapper error after) — the reason why `call_transparent`
+    and `run_results_indep` are stated for the documented values, which is what C20 quantifies over. -/
+theorem bad_verbose_depends_on_setup :
+    (step init (.callBad .returns)).2.map (·.result) = some .returned ∧
+    (step (setUp init none) (.callBad .returns)).2.map (·.result) = some .raisedWrapper := by
+  decide
+
+/-- The wrapper's own error can occur ONLY for an undocumented verbosity: every documented operation
+    shows the body's outcome or nothing. -/
+theorem wrapper_error_only_if_undocumented (s : LogState) (op : Op) (obs : CallObs)
+    (h : (step s op).2 = some obs) (hw : obs.result = .raisedWrapper ∨ obs.result = .raisedKeyError) :
+    op.documented = false := by
+  cases op with
+  | call v o =>
+    have := call_transparent s v o
+    rw [h] at this
+    simp at this
+    rcases hw with hw | hw <;> rw [hw] at this <;> cases o <;> simp [ownResult] at this
+  | callBad o => rfl
+  | setUp l => cases h
+  | setLevel l => cases h
+  | disable => cases h
+  | enable => cases h
 
 /-! ### The pinned `wrap_verbose` violates both halves (DESIGN §9-D16); kept as witnesses. -/
 
@@ -125,6 +194,14 @@ example : (traj init demo).map (·.console) =
 
 example : (observe init demo).map (·.map (·.result)) =
     [some .returned, none, some .raisedOwn, none, some .returned, none, none, some .raisedOwn] := by decide
+
+example : ∀ op ∈ demo, op.documented = true := by decide
+
+-- a history with undocumented verbosities: the level trajectory is that of the history without the calls
+example : (traj init [.callBad .returns, .setUp (some .warning), .callBad .returns, .callBad .raises]).map (·.console) =
+    [none, none, some .warning, some .warning, some .warning] := by decide
+example : (observe init [.callBad .returns, .setUp (some .warning), .callBad .returns, .callBad .raises]).map (·.map (·.result)) =
+    [some .returned, none, some .raisedWrapper, some .raisedWrapper] := by decide
 
 example : (traj init demo)[3]? = (traj init demo)[2]? :=
   run_restores init demo 2 (by decide) (by decide)
